@@ -138,6 +138,7 @@ _add("url_pct_escape", Tmpl(b"http://example.com/%", (2, "hex"), b"z"), lambda d
 _add("url_scheme_free", Tmpl((1, "alpha"), b"ttp", (1, "alpha"), b"://example.com/"), lambda d: check_nodes(find_urls, d, "find_urls"), funcs=FU, timeout=900)
 CLASSES["quoteish"] = "({x} == 39 or {x} == 40 or {x} == 34 or {x} == 32)"
 _add("url_quote_context", Tmpl((1, "quoteish"), b"http://", 1, b"@example.com/a", 1), lambda d: check_nodes(find_urls, d, "find_urls"), funcs=FU, timeout=900)
+_add("url_host_dot_tld", Tmpl(b"http://", (1, "ldhdot"), b"com/a"), lambda d: check_nodes(find_urls, d, "find_urls"), funcs=FU, timeout=900)
 _add("url_context_truncation", Tmpl(1, b"http://example.com/a", 1, b"b"), lambda d: check_nodes(find_urls, d, "find_urls"), funcs=FU,
      tier="thorough", timeout=3000)
 _add("url_host_free2", Tmpl(b"http://", 2, b"example.com"), lambda d: check_nodes(find_urls, d, "find_urls"), funcs=FU, tier="thorough", timeout=3000)
